@@ -26,10 +26,12 @@ def main():
         assert res['states'] >= 1
         print('selftest ok: sismic from', os.path.dirname(sismic.__file__), 'states', res['states'])
         return 0
+    # CPU-time ceiling per exploration task (mc/harness.py): the largest quick task takes well under a minute
+    os.environ.setdefault('VERIF_TASK_CPU_S', '600' if a.tier == 'quick' else '5400')
     try:
         mod = importlib.import_module('checks.%s' % a.id.lower())
         return mod.run(a.tier, seed)
-    except Exception:
+    except (Exception, mc.HangError):
         # The checks never raise on a tree where the property holds (they are run on the unchanged
         # tree, several seeds, before being registered): an exception here means the code under
         # test behaved in a way the harness could not even drive, which is reported as a violation.
